@@ -1,10 +1,11 @@
 #!/bin/sh
 # Build the framework from files on disk only (offline). Every check rebuilds against /repo's tree anyway.
 set -e
-cd /verif
+cd "$(dirname "$0")"
+V=$(pwd)
 export CARGO_NET_OFFLINE=true
 mkdir -p .work evidence
 [ -f replay/Cargo.lock ] || cp /repo/Cargo.lock replay/Cargo.lock
-(cd replay && CARGO_TARGET_DIR=/verif/.work/replay_target cargo build --offline --quiet && CARGO_TARGET_DIR=/verif/.work/replay_target cargo build --offline --quiet --release)
+(cd replay && CARGO_TARGET_DIR=$V/.work/replay_target cargo build --offline --quiet && CARGO_TARGET_DIR=$V/.work/replay_target cargo build --offline --quiet --release)
 python3-vt -c "import z3; print('z3', z3.get_version_string())"
 echo setup ok
